@@ -474,3 +474,17 @@ Definition plain_node (n : node) : bool := forallb (fun k => oattr k =? 0) (nops
 Definition plain_pe (G : pe) : bool := forallb plain_node (pnodes G).
 (* what convert_generic_body_to_phs produces for a body without attribute-carrying operations *)
 Definition kernel_ok (g : pe) : bool := is_concrete g && nodup_ids (map nid (pnodes g)) && plain_pe g.
+
+(* a kernel body in SSA form: operands are block arguments or results of earlier operations, the yield has
+   an operand *)
+Definition ksrc_ok (na j : nat) (s : ksrc) : bool :=
+  match s with KArg i => (i <? na)%nat | KOp j' => (j' <? j)%nat end.
+Fixpoint kops_ok (na j : nat) (ops : list kop) : bool :=
+  match ops with
+  | [] => true
+  | o :: r => forallb (ksrc_ok na j) (kargs o) && kops_ok na (S j) r
+  end.
+Definition body_ok (b : body) : bool :=
+  kops_ok (bnargs b) 0 (bops b)
+  && match byield b with y :: _ => ksrc_ok (bnargs b) (length (bops b)) y | [] => false end.
+Definition plain_body (b : body) : bool := forallb (fun o => oattr (kkind o) =? 0) (bops b).
